@@ -65,6 +65,12 @@ def euler(f, n=8, mode='constant'):
     if f.dtype is not np.bool_:
         assert np.all( (f == 0) | (f == 1)), 'mahotas.euler: Non-binary image'
         f = (f != 0)
+    if mode == 'constant':
+        # The image is surrounded by background, so every 2x2 quad that meets
+        # it counts. convolve() only visits the quads whose last pixel lies
+        # inside the image: one extra background row & column brings in the
+        # quads that straddle the bottom and right borders.
+        f = np.pad(f, ((0, 1), (0, 1)), mode='constant')
     value = convolve(f.astype(_powers.dtype, copy=False), _powers, mode=mode)
     return lookup[value].sum()
 
